@@ -30,7 +30,17 @@ pub fn map<R: Send>(n: usize, f: impl Fn(usize) -> R + Sync) -> Vec<R> {
                     if i >= n {
                         break;
                     }
-                    let r = f(i);
+                    // A panic here is a defect of the engine (calls into the subject are
+                    // wrapped by the engines themselves): report it as a machinery error,
+                    // never as a verdict, and say where it came from.
+                    let r = match std::panic::catch_unwind(std::panic::AssertUnwindSafe(|| f(i))) {
+                        Ok(r) => r,
+                        Err(p) => {
+                            let msg = p.downcast_ref::<String>().cloned().or_else(|| p.downcast_ref::<&str>().map(|s| s.to_string())).unwrap_or_default();
+                            eprintln!("MACHINERY-ERROR: uncaught panic inside the engine (shard {i}): {msg}");
+                            std::process::exit(2);
+                        }
+                    };
                     // SAFETY: each index is claimed by exactly one thread.
                     unsafe { *slots_ptr.0.add(i) = Some(r) };
                 }
